@@ -352,8 +352,8 @@ package activitypub
 //@                    (forall (j) (=> (and (<= 0 j) (< j (len items))) (not (iriEq (idOf (at result k)) (idOf (at items j)) false)))))))
 //@ loop 1
 //@   invariant (and (<= -1 rangeindex) (< rangeindex (len items)) (<= -1 rangeindex^) (< (+ rangeindex^ 1) (len col)) (> (len items) 0))
-//@   invariant (<= (len result) (+ rangeindex^ 1))
+//@   invariant (<= (len result^) (+ rangeindex^ 1))
 //@   invariant (forall (j) (=> (and (<= 0 j) (<= j rangeindex)) (not (iriEq (idOf (at col (+ rangeindex^ 1))) (idOf (at items j)) false))))
-//@   invariant (forall (k) (=> (and (<= 0 k) (< k (len result)))
-//@               (and (exists (m) (and (<= 0 m) (<= m rangeindex^) (= (at result k) (at col m))))
-//@                    (forall (j) (=> (and (<= 0 j) (< j (len items))) (not (iriEq (idOf (at result k)) (idOf (at items j)) false)))))))
+//@   invariant (forall (k) (=> (and (<= 0 k) (< k (len result^)))
+//@               (and (exists (m) (and (<= 0 m) (<= m rangeindex^) (= (at result^ k) (at col m))))
+//@                    (forall (j) (=> (and (<= 0 j) (< j (len items))) (not (iriEq (idOf (at result^ k)) (idOf (at items j)) false)))))))
